@@ -458,4 +458,62 @@ C13(pre, step, post, out) ==
                /\ \A i \in 1..Len(out) : out[i].k # "loop_error")
                  => processedSent >= Len(sent), "external_event_discarded")
 
+--------------------------------------------------------------------------
+(* C07 -- failure containment: a faulty run of a step against its fault-free twin   *)
+(*   faults: user (marker) actions that raise when called                           *)
+
+ListOf(a) == IF a \in DOMAIN D.actInfo THEN <<D.actInfo[a].sec, D.actInfo[a].owner>> ELSE <<"other", a>>
+ActPairs(out, drop) ==
+  LET q == SelectSeq(out, LAMBDA e : e.k = "act" /\ ListOf(e.a) \notin drop)
+  IN [i \in 1..Len(q) |-> <<q[i].a, q[i].b>>]
+CfgTrail(out) ==
+  LET q == SelectSeq(out, LAMBDA e : e.k = "on_transition") IN [i \in 1..Len(q) |-> q[i].c]
+
+\* the static action list that contains marker f, and whether everything after f in it is a plain
+\* user action (skipping a raise/assign/choose legitimately changes what happens later)
+ListSeqOf(f) ==
+  LET info == D.actInfo[f]
+  IN IF info.sec = "entry" THEN D.entry[info.owner]
+     ELSE IF info.sec = "exit" THEN D.exit[info.owner]
+     ELSE D.trans[CHOOSE t \in 1..Len(D.trans) : D.trans[t].name = info.owner].acts
+RemainderPlain(f) ==
+  f \in DOMAIN D.actInfo /\
+  LET q == ListSeqOf(f)
+      pos == {i \in 1..Len(q) : q[i].name = f}
+  IN pos # {} /\ \A i \in 1..Len(q) : (\E p \in pos : i > p) => q[i].kind = "user"
+
+C07Pair(cleanPost, cleanOut, faultyPost, faultyOut, faults) ==
+  IF ~\A f \in faults : RemainderPlain(f) THEN {} ELSE
+  LET faulted == {ListOf(f) : f \in faults}
+      reached == {f \in faults : \E i \in 1..Len(cleanOut) : cleanOut[i].k = "act" /\ cleanOut[i].a = f}
+      nErr == Cardinality({i \in 1..Len(faultyOut) : faultyOut[i].k = "action_error"})
+  IN Tag(ActPairs(cleanOut, faulted) = ActPairs(faultyOut, faulted), "other_actions_same")
+     \cup Tag(CfgTrail(cleanOut) = CfgTrail(faultyOut), "configurations_same")
+     \cup Tag(cleanPost.config = faultyPost.config /\ cleanPost.status = faultyPost.status
+              /\ cleanPost.hist = faultyPost.hist /\ cleanPost.err = faultyPost.err, "state_same")
+     \cup Tag(\A f \in faults : ~\E i \in 1..Len(faultyOut) : faultyOut[i].k = "act" /\ faultyOut[i].a = f,
+              "faulting_action_logged")
+     \* the remainder of the faulted list is skipped: the action that follows a failure report never
+     \* belongs to the failed action's list (unless it is that list's first action, i.e. a new run of it)
+     \cup Tag(\A i \in 1..Len(faultyOut) : faultyOut[i].k = "action_error" /\ faultyOut[i].a \in DOMAIN D.actInfo =>
+                LET nx == {j \in (i + 1)..Len(faultyOut) : faultyOut[j].k = "act"}
+                IN nx = {} \/ LET j == CHOOSE x \in nx : \A y \in nx : x <= y
+                               IN ListOf(faultyOut[j].a) # ListOf(faultyOut[i].a)
+                                  \/ ListSeqOf(faultyOut[i].a)[1].name = faultyOut[j].a,
+              "remainder_skipped")
+     \cup Tag((reached # {}) => nErr >= 1, "on_action_error_notified")
+     \cup Tag((reached = {}) => nErr = 0, "spurious_action_error")
+
+\* aborted transition: configuration as before it, exited states re-armed
+C07Abort(pre, step, post, out) ==
+  LET ots == {i \in 1..Len(out) : out[i].k = "on_transition"}
+      lastOt == IF ots = {} THEN 0 ELSE CHOOSE i \in ots : \A x \in ots : x <= i
+      before == IF lastOt = 0 THEN pre.config ELSE out[lastOt].c
+      rearms == {out[i].a : i \in {x \in 1..Len(out) : out[x].k = "rearm"}}
+      exitedAfter == {out[i].a : i \in {x \in (lastOt + 1)..Len(out) : out[x].k = "cancel"}}
+      syncAbort == post.err # NoErr /\ post.err[1] \notin {"Diverged"} /\ step.op \in {"send", "batch"}
+  IN Tag(syncAbort => post.config = before, "rolled_back")
+     \cup Tag(syncAbort => rearms = exitedAfter, "rearmed")
+     \cup Tag(syncAbort => post.status = "running", "still_running")
+
 =============================================================================
